@@ -42,6 +42,8 @@ type selCase struct {
 
 type thread struct {
 	id      int
+	family  int
+	private bool // the pending operation touches only objects private to this family
 	cid     uint64 // canonical identity: derived from the spawn path, not from timing
 	nspawn  uint64
 	nchan   uint64
@@ -64,6 +66,7 @@ type thread struct {
 }
 
 type chanModel struct {
+	fam    owner
 	owner  *thread // the only thread that has touched the channel so far (nil: shared)
 	shared bool
 	ref    any // pins the real channel so its address cannot be reused within the execution
@@ -113,6 +116,8 @@ type Sched struct {
 	epoch    uint64
 	npool    uint64
 	localOpt bool
+	prefill  int
+	families bool
 }
 
 var (
@@ -145,6 +150,16 @@ type Options struct {
 	// thread has touched so far, nor before atomic operations (coarser atomic steps; every
 	// order of operations that two threads can both observe stays reachable).
 	LocalOpt bool
+	// PoolPrefill >= 0: every pool starts the execution holding exactly that many objects
+	// (kept from the previous execution or made with New), so "recycled" answers are
+	// available from the first Get on and executions start from the same pool state.
+	PoolPrefill int
+	// Families: the threads started by the main thread and all their descendants form one
+	// family each. Operations on objects only one family has touched are not scheduling
+	// points, scheduling inside a family is deterministic (lowest id first), and the
+	// explorer chooses between FAMILIES at operations on shared objects, at blocking and
+	// at thread exit. Every order of shared operations across families stays reachable.
+	Families bool
 }
 
 // Run executes body as managed thread 0 under the chooser and returns when every managed
@@ -152,7 +167,7 @@ type Options struct {
 func Run(ch Chooser, o Options, body func()) Result {
 	activeMu.Lock()
 	defer activeMu.Unlock()
-	s := &Sched{chooser: ch, chans: map[uintptr]*chanModel{}, maxSteps: o.MaxSteps, done: make(chan struct{}), logOn: o.Log, gomax: o.GOMAXPROCS, onPoint: o.OnPoint, digest: o.Digest, localOpt: o.LocalOpt}
+	s := &Sched{chooser: ch, chans: map[uintptr]*chanModel{}, maxSteps: o.MaxSteps, done: make(chan struct{}), logOn: o.Log, gomax: o.GOMAXPROCS, onPoint: o.OnPoint, digest: o.Digest, localOpt: o.LocalOpt, prefill: o.PoolPrefill, families: o.Families}
 	if s.maxSteps == 0 {
 		s.maxSteps = 1 << 20
 	}
@@ -236,6 +251,28 @@ func (s *Sched) chanOfNew(c any, fresh bool) *chanModel {
 		s.chans[p] = m
 	}
 	return m
+}
+
+// owner tracks which family has touched a synchronisation object.
+type owner struct {
+	fam    int // family + 1; 0 = untouched
+	shared bool
+}
+
+// touch records that t uses the object and reports whether it is (still) private to t's family.
+func (o *owner) touch(t *thread) bool {
+	if o.shared {
+		return false
+	}
+	if o.fam == 0 {
+		o.fam = t.family + 1
+		return true
+	}
+	if o.fam != t.family+1 {
+		o.shared = true
+		return false
+	}
+	return true
 }
 
 // private reports whether ch has been touched by t alone (and marks the touch).
@@ -395,6 +432,11 @@ func (s *Sched) point(t *thread) {
 	if s.onPoint != nil {
 		s.onPoint(s)
 	}
+	if s.families && t.private && s.enabled(t) {
+		t.private = false
+		return
+	}
+	t.private = false
 	next := s.pick(t)
 	if next == nil {
 		s.res.Deadlock = true
@@ -449,6 +491,9 @@ func (s *Sched) pick(running *thread) *thread {
 	case 1:
 		return en[0]
 	}
+	if s.families {
+		return s.pickFamily(running, en, curEnabled)
+	}
 	if DebugEnabled {
 		LastEnabled = ""
 		for _, t := range en {
@@ -460,6 +505,42 @@ func (s *Sched) pick(running *thread) *thread {
 		panic(fmt.Sprintf("vsched: chooser returned %d of %d", i, len(en)))
 	}
 	return en[i]
+}
+
+// pickFamily: one candidate per family (the running thread for its own family if it is
+// enabled, otherwise the lowest enabled id); the explorer chooses between families, the
+// current family first.
+func (s *Sched) pickFamily(running *thread, en []*thread, curEnabled bool) *thread {
+	curFam := -1
+	if running != nil {
+		curFam = running.family
+	} else if s.cur != nil {
+		curFam = s.cur.family
+	}
+	var reps []*thread
+	seen := map[int]bool{}
+	// current family first
+	for _, t := range en {
+		if t.family == curFam {
+			reps = append(reps, t)
+			seen[curFam] = true
+			break
+		}
+	}
+	for _, t := range en {
+		if !seen[t.family] {
+			seen[t.family] = true
+			reps = append(reps, t)
+		}
+	}
+	if len(reps) == 1 {
+		return reps[0]
+	}
+	i := s.choose(len(reps), seen[curFam] && reps[0].family == curFam, "sched")
+	if i < 0 || i >= len(reps) {
+		panic(fmt.Sprintf("vsched: chooser returned %d of %d", i, len(reps)))
+	}
+	return reps[i]
 }
 
 func (s *Sched) threadExit(t *thread) {
@@ -556,10 +637,15 @@ func Go(f func()) {
 	}
 	t.nspawn++
 	n := &thread{id: len(s.threads), cid: mix(t.cid, t.nspawn), wake: make(chan struct{}, 1)}
+	n.family = t.family
+	if t.id == 0 {
+		n.family = n.id
+	}
 	s.threads = append(s.threads, n)
 	go s.runThread(n, f)
 	s.log(t, "spawn", nil)
 	t.op = opPlain
+	t.private = t.id != 0
 	s.point(t)
 }
 
@@ -670,6 +756,7 @@ func SendAny(c any, v any) bool {
 		return true
 	}
 	t.op, t.ch, t.val, t.handed = opSend, ch, v, false
+	t.private = ch != nil && ch.fam.touch(t)
 	s.point(t)
 	if t.handed {
 		t.handed = false
@@ -695,6 +782,7 @@ func RecvAny(c any) (v any, ok bool, managed bool) {
 		return v, true, true
 	}
 	t.op, t.ch, t.handed = opRecv, ch, false
+	t.private = ch != nil && ch.fam.touch(t)
 	s.point(t)
 	if t.handed {
 		t.handed = false
@@ -708,6 +796,7 @@ func RecvAny(c any) (v any, ok bool, managed bool) {
 	// (unsynchronised reuse of that memory) could never be interleaved in between.
 	s.observe(t, v, ok)
 	t.op = opPlain
+	t.private = ch != nil && !ch.fam.shared
 	s.point(t)
 	t.op = opNone
 	return v, ok, true
@@ -745,6 +834,7 @@ func CloseAny(c any) bool {
 	}
 	ch := s.chanOf(c)
 	t.op = opPlain
+	t.private = ch != nil && ch.fam.touch(t)
 	s.point(t)
 	if ch.closed {
 		panic("close of closed channel")
@@ -785,6 +875,12 @@ func SelectAny(hasDefault bool, cases []*SelCase) (int, bool) {
 		t.cases = append(t.cases, selCase{ch: s.chanOf(c.C), send: c.Send, val: c.Val})
 	}
 	t.op, t.hasDef, t.handed = opSelect, hasDefault, false
+	t.private = true
+	for _, c := range t.cases {
+		if c.ch == nil || !c.ch.fam.touch(t) {
+			t.private = false
+		}
+	}
 	s.point(t)
 	if t.handed {
 		t.handed = false
@@ -830,7 +926,10 @@ func SelectAny(hasDefault bool, cases []*SelCase) (int, bool) {
 
 // ---- sync models ----
 
-type WaitGroupModel struct{ n int }
+type WaitGroupModel struct {
+	n   int
+	fam owner
+}
 
 func (w *WaitGroupModel) Add(d int) {
 	w.n += d
@@ -843,6 +942,7 @@ func (w *WaitGroupModel) Done() {
 	s, t := cur()
 	if s != nil {
 		t.op = opPlain
+		t.private = w.fam.touch(t)
 		s.point(t)
 		s.log(t, "wg.Done", nil)
 	}
@@ -858,6 +958,7 @@ func (w *WaitGroupModel) Wait() {
 		return
 	}
 	t.op, t.wg = opWait, w
+	t.private = w.fam.touch(t)
 	s.point(t)
 	t.op = opNone
 	s.log(t, "wg.Wait", nil)
@@ -866,6 +967,7 @@ func (w *WaitGroupModel) Wait() {
 type MutexModel struct {
 	locked  bool
 	readers int
+	fam     owner
 }
 
 func (m *MutexModel) Lock() {
@@ -875,6 +977,7 @@ func (m *MutexModel) Lock() {
 		return
 	}
 	t.op, t.mu = opLock, m
+	t.private = m.fam.touch(t)
 	s.point(t)
 	t.op = opNone
 	m.locked = true
@@ -907,6 +1010,7 @@ func (m *MutexModel) RLock() {
 		return
 	}
 	t.op, t.mu = opRLock, m
+	t.private = m.fam.touch(t)
 	s.point(t)
 	t.op = opNone
 	m.readers++
@@ -918,6 +1022,8 @@ type OnceModel struct {
 	done    bool
 	running bool
 }
+
+// (a Once is always treated as shared: it guards process-wide initialisation)
 
 func (o *OnceModel) Do(f func()) {
 	s, t := cur()
@@ -947,6 +1053,7 @@ type PoolModel struct {
 	items []any
 	epoch uint64
 	cid   uint64
+	fam   owner
 }
 
 // reg attaches the pool to the running execution: pools are emptied at the start of every
@@ -957,8 +1064,19 @@ func (p *PoolModel) reg() {
 	if s == nil || p.epoch == s.epoch {
 		return
 	}
+	// a pool that already existed in an earlier execution is a package-level one: shared
+	p.fam = owner{shared: p.epoch != 0}
 	p.epoch = s.epoch
-	p.items = p.items[:0]
+	if s.prefill > 0 {
+		for len(p.items) > s.prefill {
+			p.items = p.items[:len(p.items)-1]
+		}
+		for len(p.items) < s.prefill && p.New != nil {
+			p.items = append(p.items, p.New())
+		}
+	} else {
+		p.items = p.items[:0]
+	}
 	var tc uint64
 	if s.cur != nil {
 		tc = s.cur.cid
@@ -973,6 +1091,7 @@ func (p *PoolModel) Get() any {
 	s, t := cur()
 	if s != nil {
 		t.op = opPlain
+		t.private = p.fam.touch(t)
 		s.point(t)
 		if len(p.items) > 0 && p.New != nil {
 			// environment answer: recycled object (default) or a fresh one
@@ -999,9 +1118,17 @@ func (p *PoolModel) Put(v any) {
 	s, t := cur()
 	if s != nil {
 		t.op = opPlain
+		t.private = p.fam.touch(t)
 		s.point(t)
 	}
 	p.items = append(p.items, v)
+	if s != nil {
+		// and once more after publishing: whoever takes the object may run before the
+		// publisher's next step (an object handed back while still in use)
+		t.op = opPlain
+		t.private = !p.fam.shared
+		s.point(t)
+	}
 }
 
 // AtomicPoint is the scheduling point before an atomic operation.
@@ -1011,6 +1138,7 @@ func AtomicPoint() {
 		return
 	}
 	t.op = opPlain
+	t.private = true
 	s.point(t)
 	s.log(t, "atomic", nil)
 }
